@@ -483,6 +483,14 @@ func finish(p *Plan, prop, tier string, seed uint64, total *Stats, viols []*Trac
 		k := knownAgg[s]
 		fmt.Printf("KNOWN-FINDING: property=%s %s %s (hit %d times)\n", prop, k.Sig, k.What, k.Count)
 	}
+	// every listed finding of this property gets its line, also when this run's exploration did not reach it
+	if all, err := LoadFindings(verifDir()); err == nil {
+		for _, fd := range all {
+			if fd.Status == "known" && fd.Property == prop && knownAgg[fd.Sig] == nil {
+				fmt.Printf("KNOWN-FINDING: property=%s %s %s (listed; not reached by this run)\n", prop, fd.Sig, fd.What)
+			}
+		}
+	}
 	// zero probes
 	var zero []string
 	for _, name := range p.ExpectProbes {
